@@ -862,3 +862,9 @@ func (e *Env) closedTxProbe() *Violation {
 	e.Label("closed-tx-probe")
 	return nil
 }
+
+// Guard runs f and turns a panic of the code under test into a violation (and remembers that locks may be leaked).
+func Guard(what string, f func() *Violation) (v *Violation) {
+	defer recoverViol(&v, what)
+	return f()
+}
